@@ -143,4 +143,40 @@ Section StackInv.
     destruct (tick p (rounds_of p) (fuel_of p) _ main s1) as [[[main' s2] r]|] eqn:Tk; [|constructor].
     destruct (tick_G _ _ _ _ _ _ _ _ H1 Tk) as [_ H2]. constructor; [apply H2|now apply IH].
   Qed.
+
+  (* runs in which further updates are applied between the ticks (cancel / force requests): they change no stack *)
+  Variable upd : Type.
+  Variable apply : S -> upd -> S.
+  Hypothesis upd_R : forall s u, R s (apply s u).
+  Hypothesis upd_T : forall s u, T s -> T (apply s u).
+  (* they leave the interrupt map alone, or add generators whose frames satisfy Q (an injected snippet) *)
+  Hypothesis upd_stacks : forall s u, T s -> stacks_ok s -> stacks_ok (apply s u).
+
+  Lemma applies_G l : forall s k, G s k -> G (fold_left apply l s) k.
+  Proof.
+    induction l as [|u l IH]; intros s k H; cbn [fold_left]; [exact H|]. apply IH. destruct H as [Ts [F O]].
+    split; [now apply upd_T|]. split; [eapply Forall_stable; [apply upd_R|exact F]|now apply upd_stacks].
+  Qed.
+
+  Fixpoint gstates (main : stack) (s : S) (now : Z) (ts : list (tick_in * list upd)) : list S :=
+    match ts with
+    | [] => []
+    | (t, us) :: ts' =>
+        let s1 := fold_left apply us (fold_left (complete_cmd p) (t_complete t) s) in
+        let now' := now + 5 * t_dt t in
+        let e := {| e_time := now'; e_thr_wait := t_thr_wait t; e_cond_true := t_cond_true t; e_cond_err := t_cond_err t |} in
+        match tick p (rounds_of p) (fuel_of p) e main s1 with
+        | None => []
+        | Some (main', s2, _) => s2 :: gstates main' s2 now' ts'
+        end
+    end.
+
+  Theorem grun_G ts : forall main s now, G s main -> Forall T (gstates main s now ts).
+  Proof.
+    induction ts as [|[t us] ts IH]; intros main s now H; cbn [gstates]; [constructor|].
+    set (s1 := fold_left apply us (fold_left (complete_cmd p) (t_complete t) s)).
+    assert (H1 : G s1 main) by (apply applies_G; now apply complete_cmds_G).
+    destruct (tick p (rounds_of p) (fuel_of p) _ main s1) as [[[main' s2] r]|] eqn:Tk; [|constructor].
+    destruct (tick_G _ _ _ _ _ _ _ _ H1 Tk) as [_ H2]. constructor; [apply H2|now apply IH].
+  Qed.
 End StackInv.
